@@ -6,7 +6,7 @@ import facts
 import grammar
 import mirlib
 from astlib import calls, find_fn, fns_in_file, last, method_calls, render, site, strip, walk
-from pathcond import conditions_to, fact_str, facts_str, let_env
+from pathcond import conditions_to, fact_str, facts_str, let_env, split_cond
 import c04
 import c06
 import c11
@@ -76,7 +76,7 @@ INDEX_LEDGER = {
     ("[T]", "std::ops::RangeFrom<usize>"): (1, "NonEmptyVec::try_from: `[1..]` after the emptiness test"),
     ("std::vec::Vec<T>", "std::ops::RangeFrom<usize>"): (1, "NonEmptyVec::try_from: `[1..]` after the emptiness test"),
     ("std::vec::Vec<T>", "usize"): (4, "NonEmptyVec index/index_mut: index 0 is the head, i-1 into the tail; callers pass block indices (C12.4: index = position)"),
-    ("std::collections::HashMap<usize, std::vec::Vec<abstract_syntax_tree::ast::Definition>>", "&usize"): (1, "ProgramArchive::new: key taken from the same map's key set"),
+    ("std::collections::HashMap<usize, std::vec::Vec<abstract_syntax_tree::ast::Definition>>", "usize"): (1, "ProgramArchive::new: key taken from the same map's key set"),
     ("std::vec::Vec<&str>", "usize"): (3, "String::try_lift: tokens[0], tokens[1] under the arm for that length (C10.3)"),
     ("std::vec::Vec<(std::string::String, usize)>", "usize"): (1, "remove_anonymous_from_expression: inputs[i] with i < inputs.len() checked by the arity test (C18.4)"),
     ("std::vec::Vec<circomspect_program_structure::intermediate_representation::Expression>", "usize"): (3, "args[0] of Num2Bits/LessThan after name and arity were tested (C01.10 / C11.3)"),
@@ -84,8 +84,7 @@ INDEX_LEDGER = {
     ("std::vec::Vec<std::collections::HashSet<usize>>", "usize"): (10, "dominator tree: vectors sized by the number of blocks, indices are block indices (C12.4)"),
     ("std::vec::Vec<std::option::Option<usize>>", "usize"): (4, "dominator tree: immediate-dominator vector sized by the number of blocks"),
     ("std::vec::Vec<utils::environment::VariableBlock<VC>>", "usize"): (2, "environment: index found by position() on the same vector"),
-    ("utils::nonempty_vec::NonEmptyVec<control_flow_graph::basic_block::BasicBlock>", "&usize"): (2, "complete_basic_block: predecessor indices are indices of existing blocks (C12.1)"),
-    ("utils::nonempty_vec::NonEmptyVec<control_flow_graph::basic_block::BasicBlock>", "usize"): (3, "complete_basic_block / SSA: the block just pushed and frontier indices"),
+    ("utils::nonempty_vec::NonEmptyVec<control_flow_graph::basic_block::BasicBlock>", "usize"): (5, "complete_basic_block: predecessor indices are indices of existing blocks (C12.1), by value or by reference; the block just pushed and frontier indices"),
 }
 # C01.12: calls of std functions documented to panic (unwrap/expect of Option and of Result with ANY error type, and the
 # position-taking Vec/slice/str methods), hand-written code reachable from main, counted per (function, payload type)
@@ -105,14 +104,14 @@ API_LEDGER = {
     ("Result::expect", "codespan_reporting::files::Error"): (1, "StdoutWriter::write_reports: only for an invalid label (C04)"),
     ("Result::expect", "anyhow::Error"): (1, "update_declarations: NonEmptyVec from a version range that is never empty"),
     ("Option::expect", "&control_flow_graph::basic_block::BasicBlock"): (7, "Cfg successors / branches / intervals: block indices stored in a block are indices of the same vector (C12.1/C12.4)"),
-    ("Option::expect", "&mut <Cfg as static_single_assignment::traits::SSAConfig>::BasicBlock"): (2, "insert_ssa_variables_impl: frontier / dominator indices of the same block vector"),
+    ("Option::expect", "&mut <generic>"): (2, "insert_ssa_variables_impl: frontier / dominator indices of the same block vector"),
     ("Option::expect", "&std::collections::HashSet<intermediate_representation::variable_meta::VariableUse>"): (6, "VariableKnowledge getters: documented precondition `cache_variable_use ran`; C09 checks every consumer runs after the cache pass"),
     ("Option::expect", "&std::ffi::OsStr"): (1, "include_library: library paths are built from file names"),
     ("Option::expect", "num_bigint::BigInt"): (1, "Curve::prime: parse of a decimal literal (C11.1 checks the literals)"),
     ("Option::expect", "std::ops::Range<usize>"): (1, "update_declarations: unwrap_or(0..1) precedes"),
     ("Option::expect", "std::path::PathBuf"): (1, "FileStack::add_include: current_location is set by take_next before any include is added (C19)"),
     ("Option::unwrap", "&&intermediate_representation::value_meta::ValueReduction"): (1, "phi propagation: next() of a set whose length was tested to be 1 (C06.3)"),
-    ("Option::unwrap", "&VC"): (1, "VariableBlock::get_variable: only after the lookup found the symbol"),
+    ("Option::unwrap", "&<generic>"): (1, "VariableBlock::get_variable: only after the lookup found the symbol"),
     ("Option::unwrap", "&circomspect_program_structure::ast::AssignOp"): (2, "remove_anonymous_from_expression: positions found in the same name list (C18.4)"),
     ("Option::unwrap", "&circomspect_program_structure::ast::Expression"): (7, "remove_anonymous_from_expression: var_access is Some for the whole anonymous-component arm; signal positions from the same list (C18.4)"),
     ("Option::unwrap", "&circomspect_program_structure::control_flow_graph::Cfg"): (2, "AnalysisRunner::get_*: the entry was inserted on the line above (C03.5 cache rule)"),
@@ -263,7 +262,8 @@ def rule_index_ledger(ctx):
             g = t.get("gargs") or []
             if len(g) > 1 and "RangeFull" in g[1]:
                 continue
-            k = (g[0] if g else "?", g[1] if len(g) > 1 else "?")
+            # indexing by `&usize` and by `usize` is the same operation with the same failure condition
+            k = (g[0] if g else "?", (g[1] if len(g) > 1 else "?").lstrip("&"))
             cnt[k] += 1
             where.setdefault(k, []).append("%s (%s:%s)" % (fn["pretty"], fn["file"], t["line"]))
     ctx.table("index sites", ["%dx %s[%s]" % (v, k[0], k[1]) for k, v in sorted(cnt.items())])
@@ -283,7 +283,17 @@ def _api_key(p, t):
         name = "%s::%s" % ("slice" if m and m.group(1) == "[T]" else "str", m.group(2)) if m else p
     g = t.get("gargs") or []
     ty = g[1] if name.startswith("Result::") and len(g) > 1 else (g[0] if g else "?")
-    return (name, ty)
+    return (name, _generic_payload(ty))
+
+
+def _generic_payload(ty):
+    """a payload that is a type parameter or an associated type of one (`&VC`, `&mut <Cfg as SSAConfig>::BasicBlock`,
+    `&mut Block`) is spelled after the enclosing function's generics, which a refactoring is free to rename: one class"""
+    m = re.match(r"^((?:&(?:mut )?)*)(.*)$", ty)
+    ref, core = m.group(1), m.group(2)
+    if re.match(r"^[A-Z]\w*$", core) or re.match(r"^<\w+ as [\w:]+>::\w+$", core):
+        return ref + "<generic>"
+    return ty
 
 
 def _guarded_lookup(file, line):
@@ -311,6 +321,63 @@ def _guarded_lookup(file, line):
     return False
 
 
+_SHRINKS = ("clear", "pop", "remove", "swap_remove", "truncate", "drain", "retain", "split_off", "dedup", "pop_front", "pop_back")
+
+
+def _guarded_position(file, line):
+    """is the `X.remove(L)` / `X.swap_remove(L)` at file:line (L an integer literal, X a local) the first thing done to X in the
+    branch of an `if` whose condition says X holds more than L elements (`X.len() == n`, n > L; `X.len() > m`, m >= L;
+    `X.len() >= m`, m > L; `!X.is_empty()` for L = 0)?  Then the position exists and the call needs no ledger entry."""
+
+    def lit(e):
+        e = strip(e)
+        if e["k"] == "Lit" and e.get("lit") == "int" and str(e.get("value", "")).isdigit():
+            return int(e["value"])
+        return None
+
+    def local(e):
+        e = strip(e)
+        return e["path"] if e["k"] == "Path" and "::" not in e["path"] else None
+
+    def enough(c, pol, x, L):
+        c = strip(c)
+        if c["k"] == "MethodCall" and c["method"] == "is_empty" and local(c["recv"]) == x:
+            return (not pol) and L == 0
+        if c["k"] == "Unary" and c.get("op") == "!":
+            return enough(c["e"], not pol, x, L)
+        if c["k"] != "Binary" or not pol:
+            return False
+        l, r, op = strip(c["l"]), strip(c["r"]), c["op"]
+        if lit(l) is not None and lit(r) is None:
+            l, r, op = r, l, {"<": ">", ">": "<", "<=": ">=", ">=": "<="}.get(op, op)
+        n = lit(r)
+        if n is None or l["k"] != "MethodCall" or l["method"] != "len" or local(l["recv"]) != x:
+            return False
+        return (op == "==" and n > L) or (op == ">" and n >= L) or (op == ">=" and n > L)
+
+    for q, fn in fns_in_file(file):
+        if not fn.get("body"):
+            continue
+        for n in walk(fn["body"]):
+            if n["k"] == "MethodCall" and n["method"] in ("remove", "swap_remove") and n.get("line") == line and len(n["args"]) == 1:
+                x, L = local(n["recv"]), lit(n["args"][0])
+                if x is None or L is None:
+                    continue
+                for iff in walk(fn["body"]):
+                    if iff["k"] != "If" or not iff.get("then"):
+                        continue
+                    inside = [m for m in walk(iff["then"])]
+                    if not any(m is n for m in inside):
+                        continue
+                    if not any(enough(c[1], c[2], x, L) for c in split_cond(iff["cond"], True) if c[0] == "if"):
+                        continue
+                    # nothing else in the branch may shrink or replace X before the call (conservatively: anywhere in it)
+                    other = [m for m in inside if m is not n and ((m["k"] == "MethodCall" and m["method"] in _SHRINKS and local(m["recv"]) == x) or (m["k"] == "Assign" and local(m["l"]) == x) or (m["k"] == "Ref" and m.get("mut") and local(m["e"]) == x))]
+                    if not other:
+                        return True
+    return False
+
+
 def rule_api_ledger(ctx):
     R = "C01.12"
     ctx.rule(R, "every call of a std function that is documented to panic on a bad argument or an absent value (Option/Result unwrap and expect with any payload, Vec/slice/str methods that take a position, RefCell borrows) in hand-written code reachable from main is a reviewed ledger entry (per function and payload type, program-wide count)")
@@ -321,6 +388,7 @@ def rule_api_ledger(ctx):
     cnt = collections.Counter()
     where = {}
     discharged = []
+    discharged_pos = []
     for f in seen:
         fn = idx.get(f)
         if fn is None or fn.get("gen"):
@@ -333,9 +401,13 @@ def rule_api_ledger(ctx):
             if k[0] in ("Option::unwrap", "Option::expect") and _guarded_lookup(fn["file"], t["line"]):
                 discharged.append("%s:%s" % (fn["file"], t["line"]))
                 continue
+            if k[0] in ("Vec::remove", "Vec::swap_remove") and _guarded_position(fn["file"], t["line"]):
+                discharged_pos.append("%s:%s" % (fn["file"], t["line"]))
+                continue
             cnt[k] += 1
             where.setdefault(k, []).append("%s (%s:%s)" % (fn["pretty"], fn["file"], t["line"]))
     ctx.table("unwraps of a map lookup under a membership test of the same map and key (discharged locally)", discharged)
+    ctx.table("positional removals under a length test of the same vector (discharged locally)", discharged_pos)
     ctx.table("panicking std calls", ["%dx %s<%s>" % (v, k[0], k[1]) for k, v in sorted(cnt.items())])
     for k, v in sorted(cnt.items()):
         ent = API_LEDGER.get(k)
